@@ -110,7 +110,19 @@ pub fn run_job(reg: &crate::scen::Registry, job: &Job) -> Body {
     match &job.kind {
         JobKind::C20 { scenario, p, env } => {
             let s = reg.find(scenario).unwrap_or_else(|| harness_error(&format!("unknown scenario {scenario}")));
-            let o = crate::env::run_sim(env, || (s.run)(p));
+            // warm-up for Context::Warm: the same scenario on other data — once in another size
+            // class and once in the SAME size class (same shapes, different contents: what a
+            // cache keyed on shape or address would confuse with the real input)
+            let pw = P { seed: p.seed ^ 0x5A5A_5A5A, size: if p.size == crate::scen::Size::S { crate::scen::Size::M } else { crate::scen::Size::S } };
+            let ps = P { seed: p.seed ^ 0x0F0F_0F0F, size: p.size };
+            let o = crate::env::run_sim_warm(
+                env,
+                || {
+                    let _ = (s.run)(&pw);
+                    let _ = (s.run)(&ps);
+                },
+                || (s.run)(p),
+            );
             Body::C20 { fps: o.results, stats: o.stats, choices: o.choices }
         }
         JobKind::C19 { entry, p, env_a, env_b, storage_seed } => {
